@@ -291,6 +291,20 @@ def run(ctx, res):
         else:
             res.ok("FIELD-COVER", key + " compares " + ",".join(sorted(compared)))
             res.sample({"rule": "FIELD-COVER", "variant": v, "compared": sorted(compared), "line": S.line(a)})
+    # ---- FLOAT-PRINT-AGREE: the property ties equality of finite floats to their printed form. IEEE `==` on f64 identifies
+    # -0.0 and 0.0, which print differently; a bit-pattern comparison (to_bits / total_cmp) would not.
+    if "Float" in diag:
+        body = S.tail_expr(diag["Float"]["body"])
+        ieee = body is not None and body["k"] == "Binary" and body["op"] == "==" and body["l"]["k"] == "Path" and body["r"]["k"] == "Path"
+        bits = body is not None and any(n_["k"] == "MethodCall" and n_["method"] in ("to_bits", "total_cmp") for n_ in S.walk(body))
+        if bits:
+            res.ok("FLOAT-PRINT-AGREE", "Float equality compares bit patterns: equal exactly when the printed forms are equal")
+        elif ieee:
+            res.bad("FLOAT-PRINT-AGREE", "values::Value_::eq # Float # ieee-eq-negative-zero",
+                    "`-0.0 == 0.0` is True (IEEE equality on f64) although the two values print differently (`-0.0`, `0.0`): the one pair of finite "
+                    "floats for which == and the printed form disagree", "%s:%d" % (FILE, S.line(diag["Float"])))
+        else:
+            res.bad("FLOAT-PRINT-AGREE", "values::Value_::eq # Float # unrecognised comparison", "the Float arm compares neither with `==` nor by bit pattern", "%s:%d" % (FILE, S.line(diag["Float"])))
     # ---- NE
     impl_fns = []
     for it in S.walk(S.file_items(sh, FILE)):
